@@ -272,7 +272,7 @@ Qed.
 Inductive reachDL : vam -> option dfrun -> Prop :=
 | reachDL_new nslots v : vam_new c nslots = OK v -> reachDL v None
 | reachDL_step v run o f v' r calls :
-    reachDL v run -> drun_idle run -> op_ok v o -> op_pool_ok o -> step c v o f = (v', r, calls) -> r <> RPanic -> r <> RStuck ->
+    reachDL v run -> op_avoids run o -> op_ok v o -> op_pool_ok o -> step c v o f = (v', r, calls) -> r <> RPanic -> r <> RStuck ->
     reachDL v' run
 | reachDL_dstep v run o f v' run' r calls dr :
     reachDL v run -> dop_ok v run o -> dstep c v run o f = (v', run', r, calls, dr) -> r <> RPanic -> r <> RStuck ->
